@@ -10,6 +10,15 @@ Fail closed: any AST shape outside the whitelist raises TranslatorError.  Transl
   loader.expand_wildcards       `not_loaded`, the `continue` test, except around self.load -> wildcard_reentry
   importer.sys_path             early return without paths, try/finally restore -> sys_path_noop_when_empty, sys_path_restores_on_exception
   importer.dynamic_import       handler types of the two try statements, what is raised -> import_attempt_catches, getattr_catches, ...
+  loader._visit_module / _inspect_module  which files the loader reads itself, statement order of _inspect_module
+                                -> visit_reads_source, inspect_module_steps, inspect_read_needs_store, inspect_reads_suffixes
+  loader._load_module_path      `if submodules: self._load_submodules(module)` after the ladder -> recurse_submodules
+  loader._load_submodules/_load_submodule/_load_package   skeleton checked (no recursion below a submodule, orphan skip,
+                                wildcard expansion before the stubs): shapes only, fail closed
+  finder.ModuleFinder.__init__  `for path in search_paths or sys.path: self.append_search_path(Path(path))` -> finder_defaults_to_sys_path
+  loader.load / load_git, cli._load_packages / dump / check, cli.get_parser: how allow_inspection, force_inspection,
+                                store_source, submodules travel from each public entry point down to GriffeLoader(...) and
+                                GriffeLoader.load(...) -> entry_allow, entry_force, entry_store, entry_submodules, entry_catches
 and a census of every call in src/_griffe that can execute foreign code (import_module, dynamic_import, exec, eval, __import__,
 exec_module, compile without PyCF_ONLY_AST ...): the set of (file, function, callee) must be exactly the whitelisted one.
 """
@@ -244,11 +253,360 @@ def _census(root: Path):
     return sites, inspect_sites
 
 
+
+# ---------------------------------------------------------------- skeleton of the loader (which files are read / imported)
+def _bool_over(t, names: dict, where: str) -> str:
+    """boolean expression over a fixed set of names -> Coq"""
+    if isinstance(t, ast.Name) and t.id in names:
+        return names[t.id]
+    if isinstance(t, ast.UnaryOp) and isinstance(t.op, ast.Not):
+        return f"(negb {_bool_over(t.operand, names, where)})"
+    if isinstance(t, ast.BoolOp):
+        op = " && " if isinstance(t.op, ast.And) else " || "
+        return "(" + op.join(_bool_over(v, names, where) for v in t.values) + ")"
+    if isinstance(t, ast.Constant) and isinstance(t.value, bool):
+        return "true" if t.value else "false"
+    raise TranslatorError(f"{where}: test outside the whitelist: {ast.unparse(t)}")
+
+
+def _skeleton(lt):
+    out = {}
+    # ---- _visit_module: the file is read (utf8) and the text handed to visit()
+    f = _fn(lt, "GriffeLoader._visit_module")
+    reads = [i for i, s in enumerate(f.body) if _contains_call(s, "read_text")]
+    visits = [i for i, s in enumerate(f.body) if _contains_call(s, "visit")]
+    if len(visits) != 1:
+        raise TranslatorError("_visit_module: expected exactly one statement calling visit(...)")
+    for i in reads:
+        if "module_path.read_text" not in ast.unparse(f.body[i]):
+            raise TranslatorError("_visit_module: reads something else than module_path")
+    if any(_contains_call(s, c) for s in f.body for c in ("inspect", "dynamic_import", "import_module", "_inspect_module")):
+        raise TranslatorError("_visit_module: reaches the inspector")
+    out["visit_reads"] = bool(reads) and min(reads) < visits[0]
+    if reads and not out["visit_reads"]:
+        raise TranslatorError("_visit_module: the file is read after visit()")
+
+    # ---- _inspect_module: statement order
+    f = _fn(lt, "GriffeLoader._inspect_module")
+    steps, needs_store, suffixes = [], None, None
+    for s in f.body:
+        src = ast.unparse(s)
+        if isinstance(s, ast.Expr) and isinstance(s.value, ast.Constant):
+            continue
+        if isinstance(s, ast.For) and ast.unparse(s.iter) == "self.ignored_modules":
+            steps.append("ISkipIgnored")
+        elif isinstance(s, ast.If) and _contains_call(s, "read_text"):
+            if s.orelse or len(s.body) != 1 or "filepath.read_text" not in ast.unparse(s.body[0]):
+                raise TranslatorError("_inspect_module: the source-reading branch has an unexpected shape")
+            conj = s.test.values if isinstance(s.test, ast.BoolOp) and isinstance(s.test.op, ast.And) else [s.test]
+            needs_store, sfx = False, None
+            for c in conj:
+                cs = ast.unparse(c)
+                if cs == "self.store_source":
+                    needs_store = True
+                elif cs == "filepath":
+                    pass
+                elif isinstance(c, ast.Compare) and len(c.ops) == 1 and isinstance(c.ops[0], ast.In) and ast.unparse(c.left) == "filepath.suffix" \
+                        and isinstance(c.comparators[0], (ast.Set, ast.Tuple, ast.List)) \
+                        and all(isinstance(e, ast.Constant) and isinstance(e.value, str) for e in c.comparators[0].elts):
+                    sfx = sorted(e.value for e in c.comparators[0].elts)
+                else:
+                    raise TranslatorError(f"_inspect_module: source-reading test outside the whitelist: {cs}")
+            if sfx is None:
+                raise TranslatorError("_inspect_module: the source-reading test does not restrict the suffix")
+            suffixes = sfx
+            steps.append("IReadSource")
+        elif isinstance(s, ast.Try) and _contains_call(ast.Module(body=s.body, type_ignores=[]), "inspect"):
+            if len(s.body) != 1 or _contains_call(s, "read_text"):
+                raise TranslatorError("_inspect_module: the try statement holds more than the inspect(...) call")
+            steps.append("IInspect")
+        elif any(_contains_call(s, c) for c in ("read_text", "inspect", "dynamic_import", "import_module", "open", "visit", "exec", "eval")):
+            raise TranslatorError(f"_inspect_module: statement outside the whitelist: {src[:120]}")
+    if steps.count("IInspect") != 1 or steps.count("IReadSource") > 1 or steps.count("ISkipIgnored") > 1:
+        raise TranslatorError(f"_inspect_module: unexpected statement sequence {steps}")
+    out["isteps"], out["needs_store"], out["read_suffixes"] = steps, bool(needs_store), suffixes or []
+
+    # ---- _load_module_path after the ladder
+    f = _fn(lt, "GriffeLoader._load_module_path")
+    rec = [s for s in f.body if isinstance(s, ast.If) and _contains_call(s, "_load_submodules")]
+    if len(rec) != 1 or rec[0].orelse or len(rec[0].body) != 1 or ast.unparse(rec[0].body[0]) != "self._load_submodules(module)":
+        raise TranslatorError("_load_module_path: `if submodules: self._load_submodules(module)` not found")
+    out["recurse"] = _bool_over(rec[0].test, {"submodules": "submodules"}, "_load_module_path")
+
+    # ---- _load_submodules / _load_submodule: one level, no recursion below a submodule, orphans skipped
+    f = _fn(lt, "GriffeLoader._load_submodules")
+    body = [s for s in f.body if not (isinstance(s, ast.Expr) and isinstance(s.value, ast.Constant))]
+    if not (len(body) == 1 and isinstance(body[0], ast.For) and ast.unparse(body[0].iter) == "self.finder.submodules(module)"
+            and len(body[0].body) == 1 and ast.unparse(body[0].body[0]) == "self._load_submodule(module, subparts, subpath)"):
+        raise TranslatorError("_load_submodules: not `for ... in self.finder.submodules(module): self._load_submodule(...)`")
+    f = _fn(lt, "GriffeLoader._load_submodule")
+    calls = [c for c in ast.walk(f) if isinstance(c, ast.Call) and _callee(c) == "_load_module"]
+    if len(calls) != 1:
+        raise TranslatorError("_load_submodule: expected exactly one self._load_module call")
+    kws = {k.arg: k.value for k in calls[0].keywords}
+    if not (isinstance(kws.get("submodules"), ast.Constant) and kws["submodules"].value is False):
+        raise TranslatorError("_load_submodule: does not pass submodules=False (the model loads one level of submodules)")
+    if "parent" not in kws:
+        raise TranslatorError("_load_submodule: submodule loaded without parent")
+    ptry = [n for n in f.body if isinstance(n, ast.Try) and _contains_call(ast.Module(body=n.body, type_ignores=[]), "_get_or_create_parent_module")]
+    if len(ptry) != 1 or len(ptry[0].handlers) != 1 or ast.unparse(ptry[0].handlers[0].type) != "UnimportableModuleError" \
+            or not isinstance(ptry[0].handlers[0].body[-1], ast.Return):
+        raise TranslatorError("_load_submodule: a submodule without importable parent is no longer skipped")
+    ltry = [n for n in f.body if isinstance(n, ast.Try) and _contains_call(ast.Module(body=n.body, type_ignores=[]), "_load_module")]
+    if len(ltry) != 1 or f.body.index(ptry[0]) > f.body.index(ltry[0]):
+        raise TranslatorError("_load_submodule: the parent lookup does not precede the load")
+
+    # ---- _load_package: top module (with submodules), namespace packages stop there, wildcard expansion precedes the stubs
+    f = _fn(lt, "GriffeLoader._load_package")
+    body = [s for s in f.body if not (isinstance(s, ast.Expr) and isinstance(s.value, ast.Constant))]
+    if not (len(body) == 4 and ast.unparse(body[0]) == "top_module = self._load_module(package.name, package.path, submodules=submodules)"
+            and isinstance(body[1], ast.If) and ast.unparse(body[1].test) == "isinstance(package, NamespacePackage)"
+            and len(body[1].body) == 1 and ast.unparse(body[1].body[0]) == "return top_module"
+            and isinstance(body[2], ast.If) and ast.unparse(body[2].test) == "package.stubs" and not body[2].orelse
+            and ast.unparse(body[3]) == "return top_module"):
+        raise TranslatorError("_load_package: skeleton changed")
+    sb = [ast.unparse(s) for s in body[2].body]
+    want = ["self.expand_wildcards(top_module)", "submodules = submodules and package.stubs.parent != package.path.parent",
+            "stubs = self._load_module(package.name, package.stubs, submodules=submodules)", "return merge_stubs(top_module, stubs)"]
+    if sb != want:
+        raise TranslatorError(f"_load_package: stubs branch changed: {sb}")
+    return out
+
+
+def _finder(ft):
+    f = _fn(ft, "ModuleFinder.__init__")
+    loops = [s for s in f.body if isinstance(s, ast.For)]
+    if len(loops) != 1 or len(loops[0].body) != 1 or ast.unparse(loops[0].body[0]) != "self.append_search_path(Path(path))" \
+            or ast.unparse(loops[0].target) != "path" or loops[0].orelse:
+        raise TranslatorError("ModuleFinder.__init__: not `for path in ...: self.append_search_path(Path(path))` (every configured path is kept)")
+    it = ast.unparse(loops[0].iter)
+    if it == "search_paths or sys.path":
+        default = True
+    elif it == "search_paths or ()" or it == "search_paths or []":
+        default = False
+    else:
+        raise TranslatorError(f"ModuleFinder.__init__: search paths taken from {it}")
+    if any(isinstance(n, ast.Assign) and "search_paths" in ast.unparse(n.targets[0]) and ast.unparse(n) != "self.search_paths: list[Path] = []"
+           and ast.unparse(n.targets[0]) == "self.search_paths" for n in ast.walk(f)):
+        raise TranslatorError("ModuleFinder.__init__: self.search_paths assigned directly")
+    f = _fn(ft, "ModuleFinder.append_search_path")
+    body = [ast.unparse(s) for s in f.body if not (isinstance(s, ast.Expr) and isinstance(s.value, ast.Constant))]
+    if body != ["path = path.resolve()", "if path not in self.search_paths:\n    self.search_paths.append(path)"]:
+        raise TranslatorError("ModuleFinder.append_search_path: not `resolve; append unless already there`")
+    for q, fn in _functions(ft):
+        if q.startswith("ModuleFinder.") and q not in ("ModuleFinder.__init__", "ModuleFinder.append_search_path", "ModuleFinder.insert_search_path"):
+            for n in ast.walk(fn):
+                if isinstance(n, (ast.Assign, ast.AugAssign, ast.Delete)) and "self.search_paths" in ast.unparse(n).split("=")[0]:
+                    raise TranslatorError(f"{q}: rebinds or deletes from self.search_paths")
+                if isinstance(n, ast.Call) and isinstance(n.func, ast.Attribute) and ast.unparse(n.func.value) == "self.search_paths" \
+                        and n.func.attr in ("remove", "pop", "clear"):
+                    raise TranslatorError(f"{q}: removes search paths")
+    return default
+
+
+# ---------------------------------------------------------------- option forwarding of the public entry points
+OPTS = ("allow_inspection", "force_inspection", "store_source", "submodules")
+
+
+def _defaults(fn) -> dict:
+    a = fn.args
+    d = {}
+    pos = a.posonlyargs + a.args
+    for arg, dv in zip(pos[len(pos) - len(a.defaults):], a.defaults):
+        d[arg.arg] = dv
+    for arg, dv in zip(a.kwonlyargs, a.kw_defaults):
+        if dv is not None:
+            d[arg.arg] = dv
+    return d
+
+
+def _params(fn) -> set:
+    a = fn.args
+    return {x.arg for x in a.posonlyargs + a.args + a.kwonlyargs}
+
+
+def _sym(value, fn, where):
+    """argument expression -> ('param', name) | ('const', bool)"""
+    if isinstance(value, ast.Name) and value.id in _params(fn):
+        # the parameter must not be reassigned inside the caller
+        for n in ast.walk(fn):
+            if isinstance(n, (ast.Assign, ast.AugAssign, ast.AnnAssign)):
+                tg = n.targets if isinstance(n, ast.Assign) else [n.target]
+                if any(isinstance(t, ast.Name) and t.id == value.id for t in tg):
+                    raise TranslatorError(f"{where}: parameter {value.id} is reassigned before being forwarded")
+        return ("param", value.id)
+    if isinstance(value, ast.Constant) and isinstance(value.value, bool):
+        return ("const", value.value)
+    raise TranslatorError(f"{where}: option value outside the whitelist: {ast.unparse(value)}")
+
+
+def _call_opts(call, caller, callee_defaults, opts, where):
+    """for each option of the callee: what the caller hands it"""
+    if any(k.arg is None for k in call.keywords):
+        raise TranslatorError(f"{where}: **kwargs in the call")
+    kws = {k.arg: k.value for k in call.keywords}
+    out = {}
+    for o in opts:
+        if o in kws:
+            out[o] = _sym(kws[o], caller, where)
+        elif o in callee_defaults and isinstance(callee_defaults[o], ast.Constant) and isinstance(callee_defaults[o].value, bool):
+            out[o] = ("const", callee_defaults[o].value)
+        else:
+            raise TranslatorError(f"{where}: option {o} neither passed nor defaulted")
+    return out
+
+
+def _compose(inner: dict, outer_args: dict) -> dict:
+    """inner: option -> value over the callee's parameters; outer_args: callee parameter -> value over the caller's parameters"""
+    res = {}
+    for o, v in inner.items():
+        res[o] = v if v[0] == "const" else outer_args[v[1]]
+    return res
+
+
+def _calls_in(fn, name, attr_of=None):
+    out = []
+    for c in ast.walk(fn):
+        if isinstance(c, ast.Call):
+            if attr_of is None and isinstance(c.func, ast.Name) and c.func.id == name:
+                out.append(c)
+            elif attr_of is not None and isinstance(c.func, ast.Attribute) and c.func.attr == name and ast.unparse(c.func.value) == attr_of:
+                out.append(c)
+    return out
+
+
+def _entries(lt, ct):
+    init = _fn(lt, "GriffeLoader.__init__")
+    meth = _fn(lt, "GriffeLoader.load")
+    init_d, meth_d = _defaults(init), _defaults(meth)
+    # the constructor stores the options as given
+    for o, attr in (("allow_inspection", "allow_inspection"), ("force_inspection", "force_inspection"), ("store_source", "store_source")):
+        st = [n for n in ast.walk(init) if isinstance(n, (ast.Assign, ast.AnnAssign)) and
+              ast.unparse(n.targets[0] if isinstance(n, ast.Assign) else n.target) == f"self.{attr}"]
+        if len(st) != 1 or ast.unparse(st[0].value) != o:
+            raise TranslatorError(f"GriffeLoader.__init__: self.{attr} is not set from the parameter {o}")
+    for q, fn in _functions(lt):
+        if q.startswith("GriffeLoader.") and q != "GriffeLoader.__init__":
+            for n in ast.walk(fn):
+                if isinstance(n, (ast.Assign, ast.AugAssign, ast.AnnAssign)):
+                    tg = n.targets if isinstance(n, ast.Assign) else [n.target]
+                    if any(ast.unparse(t) in ("self.allow_inspection", "self.force_inspection", "self.store_source") for t in tg):
+                        raise TranslatorError(f"{q}: rebinds an inspection option of the loader")
+
+    def loader_and_load(fn, where, loader_name="loader"):
+        """a function that builds one GriffeLoader and calls .load on it -> option -> value over fn's parameters"""
+        cs = _calls_in(fn, "GriffeLoader")
+        ls = _calls_in(fn, "load", loader_name)
+        if len(cs) != 1 or len(ls) != 1:
+            raise TranslatorError(f"{where}: expected one GriffeLoader(...) and one {loader_name}.load(...), found {len(cs)} / {len(ls)}")
+        if cs[0].args:
+            raise TranslatorError(f"{where}: positional arguments to GriffeLoader")
+        a = _call_opts(cs[0], fn, init_d, ("allow_inspection", "force_inspection", "store_source"), where + ": GriffeLoader(...)")
+        a.update(_call_opts(ls[0], fn, meth_d, ("submodules",), where + ": loader.load(...)"))
+        return a, ls[0]
+
+    res, catches = {}, {}
+    f_load = _fn(lt, "load")
+    m_load, _ = loader_and_load(f_load, "load")
+    res["ELoad"] = m_load
+    load_d = _defaults(f_load)
+
+    def via(fn, call, callee_fn, callee_map, where):
+        args = _call_opts(call, fn, _defaults(callee_fn), [p for p in OPTS if p in _params(callee_fn)], where)
+        # options of the callee's own mapping that refer to parameters the callee does not have cannot occur
+        return _compose(callee_map, args)
+
+    f_git = _fn(lt, "load_git")
+    cs = _calls_in(f_git, "load")
+    if len(cs) != 1:
+        raise TranslatorError(f"load_git: expected one load(...) call, found {len(cs)}")
+    m_git = via(f_git, cs[0], f_load, m_load, "load_git: load(...)")
+    res["ELoadGit"] = m_git
+
+    f_lp = _fn(ct, "_load_packages")
+    m_lp, lcall = loader_and_load(f_lp, "_load_packages")
+    tr = [n for n in ast.walk(f_lp) if isinstance(n, ast.Try) and any(c is lcall for b in n.body for c in ast.walk(b))]
+    if len(tr) != 1 or tr[0].finalbody or tr[0].orelse:
+        raise TranslatorError("_load_packages: loader.load is not inside one try statement")
+    caught = []
+    for h in tr[0].handlers:
+        _no_reraise(h, "_load_packages")
+        caught += _handler_types(h)
+    f_dump = _fn(ct, "dump")
+    cs = _calls_in(f_dump, "_load_packages")
+    if len(cs) != 1:
+        raise TranslatorError("dump: expected one _load_packages(...) call")
+    res["EDump"] = via(f_dump, cs[0], f_lp, m_lp, "dump: _load_packages(...)")
+    catches["EDump"] = sorted(set(caught))
+
+    f_check = _fn(ct, "check")
+    gits = _calls_in(f_check, "load_git")
+    loads = _calls_in(f_check, "load")
+    if len(gits) != 2 or len(loads) != 1:
+        raise TranslatorError(f"check: expected two load_git(...) and one load(...) calls, found {len(gits)} / {len(loads)}")
+    target = {}
+    for n in ast.walk(f_check):
+        if isinstance(n, ast.Assign) and isinstance(n.value, ast.Call) and len(n.targets) == 1 and isinstance(n.targets[0], ast.Name):
+            target[id(n.value)] = n.targets[0].id
+    old = [c for c in gits if target.get(id(c)) == "old_package"]
+    new_ref = [c for c in gits if target.get(id(c)) == "new_package"]
+    if len(old) != 1 or len(new_ref) != 1 or target.get(id(loads[0])) != "new_package":
+        raise TranslatorError("check: the loads are not assigned to old_package / new_package as expected")
+    res["ECheckOld"] = via(f_check, old[0], f_git, m_git, "check: load_git(old)")
+    res["ECheckNewRef"] = via(f_check, new_ref[0], f_git, m_git, "check: load_git(new)")
+    res["ECheckNewTree"] = via(f_check, loads[0], f_load, m_load, "check: load(new)")
+    # no try statement swallows anything around the loads of load / load_git / check
+    for fn, nm in ((f_load, "load"), (f_git, "load_git"), (f_check, "check")):
+        for n in ast.walk(fn):
+            if isinstance(n, ast.Try) and any(isinstance(c, ast.Call) and _callee(c) in ("load", "load_git") for b in n.body for c in ast.walk(b)):
+                raise TranslatorError(f"{nm}: a try statement now surrounds a load")
+    # the command line: -X clears allow_inspection (default True), -x sets force_inspection (default False); main passes the namespace on
+    gp = _fn(ct, "get_parser")
+    seen = {}
+    for c in ast.walk(gp):
+        if isinstance(c, ast.Call) and _callee(c) == "add_argument":
+            kws = {k.arg: k.value for k in c.keywords}
+            d = kws.get("dest")
+            if isinstance(d, ast.Constant) and d.value in ("allow_inspection", "force_inspection"):
+                seen[d.value] = (ast.unparse(kws.get("action")), ast.unparse(kws.get("default")))
+    if seen != {"allow_inspection": ("'store_false'", "True"), "force_inspection": ("'store_true'", "False")}:
+        raise TranslatorError(f"get_parser: inspection flags changed: {seen}")
+    mn = _fn(ct, "main")
+    if "commands[subcommand](**opts_dict)" not in ast.unparse(mn) or "'check': check, 'dump': dump" not in ast.unparse(mn):
+        raise TranslatorError("main: the parsed options are no longer passed to check / dump as they are")
+    return res, catches
+
+
+def _entry_defs(res, catches):
+    order = ["ELoad", "ELoadGit", "EDump", "ECheckOld", "ECheckNewRef", "ECheckNewTree"]
+    arg = {"allow_inspection": "allow", "force_inspection": "force", "store_source": "store", "submodules": "submodules"}
+    lines = []
+    for o, fname in (("allow_inspection", "entry_allow"), ("force_inspection", "entry_force"), ("store_source", "entry_store"), ("submodules", "entry_submodules")):
+        cases = []
+        for e in order:
+            v = res[e][o]
+            if v[0] == "const":
+                cases.append(f"{e} => {'true' if v[1] else 'false'}")
+            elif v[1] == o:
+                cases.append(f"{e} => {arg[o]}")
+            else:
+                raise TranslatorError(f"{e}: {o} is fed from the parameter {v[1]}")
+        lines.append(f"Definition {fname} (ep : entry) ({arg[o]} : bool) : bool :=\n  match ep with " + " | ".join(cases) + " end.")
+    lines.append("Definition entry_catches (ep : entry) : list string :=\n  match ep with " +
+                 " | ".join(f"{e} => {_strlist(catches.get(e, []))}" for e in order) + " end.")
+    return lines
+
+
 def translate(ctx=None) -> Path:
     src = REPO / "src/_griffe"
     sites, inspect_sites = _census(src)
     lt = ast.parse((src / "loader.py").read_text())
     it = ast.parse((src / "importer.py").read_text())
+    ft = ast.parse((src / "finder.py").read_text())
+    ct = ast.parse((src / "cli.py").read_text())
+    skel = _skeleton(lt)
+    finder_default = _finder(ft)
+    entry_lines = _entry_defs(*_entries(lt, ct))
 
     # ---- _load_module_path ladder
     f = _fn(lt, "GriffeLoader._load_module_path")
@@ -443,7 +801,7 @@ def translate(ctx=None) -> Path:
         return "[" + "; ".join(f"({_strlist(sorted(hs))}, {x})" for hs, x in ws) + "]"
 
     out = [
-        "(* GENERATED by harness/translate/c15_ladder.py from /repo/src/_griffe/loader.py and importer.py -- do not edit *)",
+        "(* GENERATED by harness/translate/c15_ladder.py from /repo/src/_griffe/{loader,importer,finder,cli}.py -- do not edit *)",
         "From Coq Require Import List String Bool.", "From Verif Require Import Model.C15_base.", "Import ListNotations.",
         "Open Scope string_scope.", "Open Scope list_scope.", "",
         "(* GriffeLoader._load_module_path: which agent gets a module path *)",
@@ -474,6 +832,17 @@ def translate(ctx=None) -> Path:
         f"Definition exhausted_raises : exn := {exhausted}.",
         f"Definition getattr_catches : list string := {_strlist(get_catch)}.",
         f"Definition getattr_raises : exn := {get_raises}.", "",
+        "(* GriffeLoader._visit_module / _inspect_module: which files the loader itself reads, and in which order *)",
+        f"Definition visit_reads_source : bool := {'true' if skel['visit_reads'] else 'false'}.",
+        f"Definition inspect_module_steps : list istep := [{'; '.join(skel['isteps'])}].",
+        f"Definition inspect_read_needs_store : bool := {'true' if skel['needs_store'] else 'false'}.",
+        f"Definition inspect_reads_suffixes : list string := {_strlist(skel['read_suffixes'])}.", "",
+        "(* GriffeLoader._load_module_path after the ladder: `if <test>: self._load_submodules(module)` *)",
+        f"Definition recurse_submodules (submodules : bool) : bool := {skel['recurse']}.", "",
+        "(* ModuleFinder.__init__: `for path in search_paths or sys.path` *)",
+        f"Definition finder_defaults_to_sys_path : bool := {'true' if finder_default else 'false'}.", "",
+        "(* what each public entry point hands down to GriffeLoader(...) / GriffeLoader.load(...) *)",
+        *entry_lines, "",
         f"(* census: {len(sites)} execution-capable call sites and {len(inspect_sites)} inspection call sites, all whitelisted *)", "",
     ]
     p = VERIF / "coq/Gen/C15_ladder.v"
